@@ -84,7 +84,9 @@ def name(draw, reserved=()):
         n = 'n' + n
     if len(os.fsencode(n)) > 200:
         n = n[:20]
-    return n
+    # adjacent escaped bytes may happen to form valid UTF-8 (\udce9\udc80\udc80 is U+9000 on disk): use the spelling the file
+    # system will report
+    return os.fsdecode(os.fsencode(n))
 
 
 def is_nonutf8(s):
